@@ -15,7 +15,7 @@ Proof.
   intros src awc pe iw re_bad fx fuel start errs H. unfold parse in H.
   assert (Hf : forall st e, Done (finish st e) = Done (PErrs errs) -> errs <> []).
   { intros st e He. unfold finish in He. destruct e; inversion He; subst; discriminate. }
-  destruct (parse_declarations src awc fuel start initial_state []) as [[i1 st1] errs1|errs1 e1| |];
+  destruct (parse_declarations src awc fx fuel start initial_state []) as [[i1 st1] errs1|errs1 e1| |];
     try discriminate.
   - destruct (parse_rules src awc pe iw re_bad fx fuel i1 st1 errs1) as [[i2 st2] errs2|errs2 e2| |];
       try discriminate.
@@ -46,7 +46,7 @@ Lemma parse_start_states_iw_off : forall pe fx b st off re,
   parse_start_states pe false (with_iw b fx) st off re = parse_start_states pe false fx st off re.
 Proof.
   intros pe fx b st off re. unfold parse_start_states.
-  cbn [with_iw fix_dangling fix_iw fix_prefix_unescape]. rewrite !andb_false_r. reflexivity.
+  cbn [with_iw fix_dangling fix_iw fix_prefix_unescape fix_esc_table]. rewrite !andb_false_r. reflexivity.
 Qed.
 
 Lemma parse_name_iw : forall fx b i rspace name_off orig_name,
@@ -61,8 +61,43 @@ Proof.
   match goal with |- match ?x with _ => _ end = _ => destruct x as [[ts on] no] end.
   rewrite parse_name_iw. iw_step.
   match goal with |- match ?x with _ => _ end = _ => destruct x as [name name_span] end.
-  iw_step. do 2 iw_step.
+  iw_step. iw_step. cbn [with_iw fix_trim_blank]. iw_step.
   rewrite parse_start_states_iw_off. reflexivity.
+Qed.
+
+(* the declarations section reads one repair only: the skipping of empty pieces *)
+Lemma declare_start_states_fx : forall src fx fx' excl i dl ll st errs,
+  fix_decl_blanks fx = fix_decl_blanks fx' ->
+  declare_start_states src fx excl i dl ll st errs = declare_start_states src fx' excl i dl ll st errs.
+Proof. intros src fx fx' excl i dl ll st errs H. unfold declare_start_states. rewrite H. reflexivity. Qed.
+
+Lemma parse_declaration_fx : forall src fx fx' i st errs,
+  fix_decl_blanks fx = fix_decl_blanks fx' ->
+  parse_declaration src fx i st errs = parse_declaration src fx' i st errs.
+Proof.
+  intros src fx fx' i st errs H. unfold parse_declaration.
+  do 3 iw_step. iw_step; [apply declare_start_states_fx; exact H|].
+  iw_step. apply declare_start_states_fx; exact H.
+Qed.
+
+Lemma parse_declarations_loop_fx : forall src awc fx fx' fuel i st errs,
+  fix_decl_blanks fx = fix_decl_blanks fx' ->
+  parse_declarations_loop src awc fx fuel i st errs = parse_declarations_loop src awc fx' fuel i st errs.
+Proof.
+  intros src awc fx fx' fuel. induction fuel as [|fuel IH]; intros i st errs H; [reflexivity|].
+  cbn [parse_declarations_loop]. iw_step. iw_step. iw_step; [iw_step; apply IH; exact H|].
+  iw_step. iw_step. iw_step.
+  rewrite (parse_declaration_fx src fx fx' _ _ _ H).
+  match goal with |- match ?x with _ => _ end = _ => destruct x as [[i' st'] errs'|errs' e| |] end;
+    same. apply IH. exact H.
+Qed.
+
+Lemma parse_declarations_fx : forall src awc fx fx' fuel i st errs,
+  fix_decl_blanks fx = fix_decl_blanks fx' ->
+  parse_declarations src awc fx fuel i st errs = parse_declarations src awc fx' fuel i st errs.
+Proof.
+  intros src awc fx fx' fuel i st errs H. unfold parse_declarations. iw_step.
+  apply parse_declarations_loop_fx. exact H.
 Qed.
 Lemma parse_rules_iw_off : forall src awc pe re_bad fx b fuel i st errs,
   parse_rules src awc pe false re_bad (with_iw b fx) fuel i st errs =
@@ -80,6 +115,7 @@ Lemma parse_iw_off : forall src awc pe re_bad fx b fuel start,
   parse src awc pe false re_bad (with_iw b fx) fuel start = parse src awc pe false re_bad fx fuel start.
 Proof.
   intros src awc pe re_bad fx b fuel start. unfold parse.
+  rewrite (parse_declarations_fx src awc (with_iw b fx) fx) by reflexivity.
   match goal with |- match ?x with _ => _ end = _ => destruct x as [[i st] errs|errs e| |] end;
     same. rewrite parse_rules_iw_off. reflexivity.
 Qed.
@@ -91,13 +127,51 @@ Proof.
   cbn [with_iw fix_header]. destruct (fix_header fx); apply parse_iw_off.
 Qed.
 
+(* ---- start-state declarations: the names are the maximal runs of non-white-space ---- *)
+Lemma nonempty_rev_cons : forall start x (cur : text), nonempty_piece (start, rev (x :: cur)) = true.
+Proof. intros start x cur. unfold nonempty_piece. cbn [snd rev]. destruct (rev cur); reflexivity. Qed.
+
+Lemma filter_split_runs : forall s off start cur,
+  filter nonempty_piece (split_go is_ws s off start cur) = runs_go s off start cur.
+Proof.
+  induction s as [|c s IH]; intros off start cur.
+  - cbn [split_go runs_go filter]. destruct cur as [|x cur]; [reflexivity|].
+    rewrite nonempty_rev_cons. reflexivity.
+  - cbn [split_go runs_go]. destruct (is_ws c).
+    + cbn [filter]. rewrite IH. destruct cur as [|x cur]; [reflexivity|].
+      rewrite nonempty_rev_cons. reflexivity.
+    + apply IH.
+Qed.
+
+Lemma declared_names_spec : declared_names_spec_stmt.
+Proof. intros base params. unfold declared_names, split, runs. rewrite filter_split_runs. reflexivity. Qed.
+
+(* `%s A  B` / `%x C \t D`: rejected before the repair, the declared states now *)
+Lemma decl_blanks_refuted : decl_blanks_refuted_stmt.
+Proof.
+  split; [vm_compute; reflexivity|]. split; [|split].
+  - eexists. split; [vm_compute; reflexivity|reflexivity].
+  - eexists. split; [vm_compute; reflexivity|]. split; vm_compute; reflexivity.
+  - eexists. split; [vm_compute; reflexivity|]. vm_compute; reflexivity.
+Qed.
+
+(* the names of `A \t  Bc<NEL>D`, with their places *)
+Example declared_names_applies :
+  declared_names true 3 [65; 32; 9; 32; 32; 66; 99; 133; 68]%N =
+    [([65]%N, (3, 4)); ([66; 99]%N, (8, 10)); ([68]%N, (12, 13))] /\
+  map fst (declared_names false 3 [65; 32; 9; 66]%N) = [[65]%N; []; [66]%N].
+Proof. split; vm_compute; reflexivity. Qed.
+
 (* ---- the hypotheses of the conditional theorems are satisfiable ---- *)
 
-(* unescape_spec: a text that does not end in a lone backslash and needs rewriting:  \"a\é  ->  "aé *)
+(* unescape_spec: a text that does not end in a lone backslash and needs rewriting:  \"a\é  ->  "aé ;
+   and one whose escapes are all escapes of the engine:  a\Bb\x{41}\u{e9}\U{1F600}\q  ->  the same without the last backslash *)
 Example unescape_spec_applies :
   dangling [92; 34; 97; 92; 233]%N = false /\
-  unescape [92; 34; 97; 92; 233]%N false = Done [34; 97; 233]%N.
-Proof. split; vm_compute; reflexivity. Qed.
+  unescape [92; 34; 97; 92; 233]%N false = Done [34; 97; 233]%N /\
+  unescape [97; 92; 66; 98; 92; 120; 123; 52; 49; 125; 92; 117; 123; 101; 57; 125; 92; 85; 123; 49; 70; 125; 92; 113]%N false =
+    Done [97; 92; 66; 98; 92; 120; 123; 52; 49; 125; 92; 117; 123; 101; 57; 125; 92; 85; 123; 49; 70; 125; 113]%N.
+Proof. split; [|split]; vm_compute; reflexivity. Qed.
 
 (* unescape_iw_spec, ignore_whitespace on:  a\<NBSP>\<U+3000>\<TAB>\#\"  ->  a\x{A0}\x{3000}\<TAB>\#"
    (and off: the four non-meta characters lose their backslash) *)
@@ -107,6 +181,14 @@ Example unescape_iw_applies :
   unescape_gen true false [97; 92; 160; 92; 12288; 92; 9; 92; 35; 92; 34]%N false =
     Done [97; 160; 12288; 9; 92; 35; 34]%N.
 Proof. split; vm_compute; reflexivity. Qed.
+
+(* trim_end_keeps / trim_end_unescaped_spec: `a<FF>` and `a<NEL><space><tab>` keep everything but the blanks; an escaped
+   blank is put back *)
+Example trim_end_unescaped_applies :
+  trim_end_unescaped [97; 12]%N = Done [97; 12]%N /\
+  trim_end_unescaped [97; 133; 32; 9]%N = Done [97; 133]%N /\
+  trim_end_unescaped [97; 92; 32; 32]%N = Done [97; 92; 32]%N.
+Proof. repeat split; vm_compute; reflexivity. Qed.
 
 (* spans_index_source: the repaired variant accepts the text on which today's code is refuted,
    and its name span (18,20) selects "ID" in the text the user wrote *)
